@@ -160,7 +160,7 @@ example : StreamProc.run {} [.put 1, .charge, .put 2, .put 3, .put 4, .put 5, .p
 def dqWitness : List Op :=
   [.accept ⟨0, 1, 10⟩, .accept ⟨0, 2, 20⟩, .add false ⟨0, 1, 10⟩, .add false ⟨0, 2, 20⟩, .sealB false 0,
    .accept ⟨0, 3, 30⟩, .accept ⟨0, 4, 40⟩, .add false ⟨0, 3, 30⟩, .add false ⟨0, 4, 40⟩, .sealB false 1,
-   .sendFail false 0 [⟨0, 1, 10⟩, ⟨0, 2, 20⟩], .giveUp false [⟨0, 1, 10⟩, ⟨0, 2, 20⟩],
+   .sendFail false 0 [⟨0, 1, 10⟩, ⟨0, 2, 20⟩], .giveUp false 0 [⟨0, 1, 10⟩, ⟨0, 2, 20⟩],
    .add true ⟨0, 1, 10⟩, .add true ⟨0, 2, 20⟩, .bcommit false 0,
    .sendOk false 1 [⟨0, 3, 30⟩, ⟨0, 4, 40⟩], .bcommit false 1, .commit ⟨0, 3, 30⟩, .commit ⟨0, 4, 40⟩,
    .sealB true 0, .sendOk true 0 [⟨0, 1, 10⟩, ⟨0, 2, 20⟩], .bcommit true 0, .commit ⟨0, 1, 10⟩, .commit ⟨0, 2, 20⟩]
